@@ -32,3 +32,34 @@ func TestC04Enum(t *testing.T) {
 		C04IP6.RunJobs(t, []string{sc.Desc()}, jobs)
 	}
 }
+
+// TestC04Large: every parser kind on 65,535-byte hostile inputs, one-shot, from an offset near
+// the end and under a sparse schedule; all one-shot API functions on the same inputs.
+func TestC04Large(t *testing.T) {
+	var jobs []func(emit func(CaseSane) bool)
+	for _, in := range hostileLarge() {
+		in := in
+		for _, k := range allKinds {
+			k := k
+			jobs = append(jobs, func(emit func(CaseSane) bool) {
+				cfg := scopeCfg(k)
+				if k == KTokParam {
+					cfg.Flags = 0x14
+				}
+				emit(CaseSane{Cfg: cfg, Buf: in, Class: "in:large"})
+				emit(CaseSane{Cfg: cfg, Buf: in, Offs: len(in) - 3, Class: "in:large"})
+				emit(CaseSane{Cfg: withCaps(cfg, 2, 1, 1), Buf: in, Sched: largeCuts(len(in)), Class: "in:large"})
+			})
+		}
+	}
+	C04Sane.RunJobs(t, nil, jobs)
+	var ajobs []func(emit func(CaseAPI) bool)
+	for _, in := range hostileLarge() {
+		in := in
+		ajobs = append(ajobs, func(emit func(CaseAPI) bool) {
+			emit(CaseAPI{A: in, Bb: in[:4000], Flags: 0, N1: 65000, N2: 535})
+			emit(CaseAPI{A: in[:300], Bb: in, Flags: 63, N1: 0, N2: 65535})
+		})
+	}
+	C04API.RunJobs(t, nil, ajobs)
+}
